@@ -225,8 +225,43 @@ func (w *World) Func(pkg, recv, name string) *ssa.Function {
 	return nil
 }
 
+// genericMethod finds an instantiation of a method of a generic type (e.g. PriorityNonceMempool[int64].Insert).
+func (w *World) genericMethod(pkg, recv, name string) *ssa.Function {
+	var best *ssa.Function
+	for f := range w.allFuncs {
+		fname := f.Name()
+		if o := f.Origin(); o != nil {
+			fname = o.Name()
+		}
+		if fname != name || len(f.Blocks) == 0 || f.Signature.Recv() == nil {
+			continue
+		}
+		if funcPkgPath(f) != modPath+"/"+pkg {
+			continue
+		}
+		n := namedOf(f.Signature.Recv().Type())
+		if n == nil || n.Obj().Name() != recv {
+			continue
+		}
+		if f.Synthetic != "" && !strings.HasPrefix(f.Synthetic, "instance") {
+			continue
+		}
+		if len(f.TypeArgs()) > 0 {
+			if best == nil || len(best.TypeArgs()) == 0 || f.String() < best.String() {
+				best = f
+			}
+		} else if best == nil {
+			best = f
+		}
+	}
+	return best
+}
+
 func (w *World) MustFunc(o *Out, pkg, recv, name string) *ssa.Function {
 	f := w.Func(pkg, recv, name)
+	if (f == nil || len(f.Blocks) == 0) && recv != "" {
+		f = w.genericMethod(pkg, recv, name)
+	}
 	if f == nil || len(f.Blocks) == 0 {
 		o.Unresolved(fmt.Sprintf("%s.%s.%s", pkg, recv, name))
 		return nil
